@@ -14,6 +14,8 @@
 (*                                          WalkDiff (operational)         *)
 (*   object_store.commit_tree_changes     ~ Patch                          *)
 (*   diff_tree.RenameDetector (exact)     ~ ExactRenames / RenameSound     *)
+(*   RenameDetector reused for a sequence ~ Detect (candidates kept between *)
+(*   of diffs, max_files limit              diffs, abstract similarity)     *)
 (*                                                                         *)
 (* A name is a non-empty sequence of byte values without 47 ('/'), a path  *)
 (* a non-empty sequence of names.  A mode is one of "F" 100644, "X"        *)
@@ -259,10 +261,41 @@ ExactRenames0(D, P) ==
     \cup {Chg(IF p[1].type = "delete" THEN "rename" ELSE "copy", p[1].old, p[2].new) : p \in P}
 ExactRenames(D) == ExactRenames0(D, RenamePairs(D))
 
+\* ------------------------------------------------------------------ the detector as an object
+\* A RenameDetector is reused for many diffs (Walker, log -M); besides its parameters it keeps
+\* the list of content-rename candidates of the diff it last examined.  Content similarity is
+\* abstract: ids "x" and "u" stand for a blob and an edited copy of it (similar above the
+\* threshold), all other distinct ids are unrelated.  After the exact renames, the remaining
+\* adds are compared with the remaining deletes and all modifies, unless that matrix exceeds
+\* max_files^2; then content detection is skipped for this diff.  `stale` = TRUE models a
+\* detector that keeps the candidates of an earlier diff when it skips (defect model).
+Related(i, j) == i = j \/ {i, j} = {"x", "u"}
+ContentSrcs(E) == {c \in E : c.type \in {"delete", "modify"} /\ IsFile(c.old)}
+Within(E, M) == Cardinality(AddsOf(E)) * Cardinality(ContentSrcs(E)) <= M * M
+Candidates(E) ==
+    {Chg(IF p[1].type = "delete" THEN "rename" ELSE "copy", p[1].old, p[2].new) :
+        p \in {q \in ContentSrcs(E) \X AddsOf(E) :
+                  /\ q[1].old.mode # "G" /\ Fmt(q[1].old.mode) = Fmt(q[2].new.mode)
+                  /\ q[1].old.id # q[2].new.id /\ Related(q[1].old.id, q[2].new.id)}}
+\* _choose_content_renames + _prune for a set C of candidates with distinct paths
+UseCands(E, C) ==
+    (E \ ({x \in AddsOf(E) : \E c \in C : c.new.path = x.new.path}
+          \cup {d \in ContentSrcs(E) : \E c \in C : c.type = "rename" /\ c.old.path = d.old.path}))
+    \cup C
+DetCands(prev, E, M, stale) == IF Within(E, M) THEN Candidates(E) ELSE IF stale THEN prev ELSE {}
+Detect1(E, C) == [res |-> UseCands(E, C), cands |-> C]
+Detect0(prev, E, M, stale) == Detect1(E, DetCands(prev, E, M, stale))
+\* one use of a detector whose previous candidates are prev: result and the candidates it keeps
+Detect(prev, A, B, M, stale) == Detect0(prev, ExactRenames(Range(DiffSeq(A, B, Default))), M, stale)
+\* the result is determined by the model: exact pairing unambiguous, at most one content candidate
+Determined0(D0, M) == Unambiguous(D0) /\ (Within(ExactRenames(D0), M) => Cardinality(Candidates(ExactRenames(D0))) <= 1)
+Determined(A, B, M) == Determined0(Range(DiffSeq(A, B, Default)), M)
+
 \* what the property demands of a change list with renames/copies: it leads from A to B, and a
-\* rename/copy claim is exact (the source existed with the same id, the target is new in B)
+\* rename/copy claim is justified (the source existed with the same or a related id, the target
+\* is new in B)
 RenameSound(C, A, B) ==
     /\ Sound(C, A, B)
     /\ \A c \in C : c.type \in {"rename", "copy"} =>
-          c.old \in A /\ c.new \in B /\ c.old.id = c.new.id /\ c.new \notin A
+          c.old \in A /\ c.new \in B /\ Related(c.old.id, c.new.id) /\ c.new \notin A
 =============================================================================
